@@ -380,12 +380,13 @@ class TokenizerState:
 
     def add_prog(self, start: int, end: int, **kwargs: Any) -> None:
         self.end_progs.append(
-            EndProg(text=self.line[start:end], contline=self.line, start=(self.lnum, start), **kwargs)
+            EndProg(text=self.line[start:end], contline=self.line, start=(self.lnum, start), last_lnum=self.lnum, **kwargs)
         )
 
     def prog_token(self, end: int, tok: Token) -> TokenInfo:
         endprog = self.end_progs[-1]
         endprog.join(self, end)
+        endprog.see_line(self)
         self.pos = end
         epos = (self.lnum, end)
         return TokenInfo(tok, endprog.full_text(), endprog.start, epos, endprog.full_contline())
@@ -454,13 +455,23 @@ class EndProg:
     # token is made (appending to a str attribute copies everything read so far, for every line of a long string)
     more_text: list[str] = dataclasses.field(default_factory=list)
     more_lines: list[str] = dataclasses.field(default_factory=list)
+    last_lnum: int = 0  # the last physical line recorded in contline / more_lines
 
     def join(self, state: TokenizerState, end: int) -> None:
         self.more_text.append(state.line[state.pos : end])
 
     def join_line(self, state: TokenizerState) -> None:
         self.more_text.append(state.line[state.pos :])
-        self.more_lines.append(state.line)
+        self.see_line(state)
+
+    def see_line(self, state: TokenizerState) -> None:
+        """Record the current physical line in the token's line text (each line once, in order)."""
+        if state.lnum > self.last_lnum:
+            if self.contline or self.more_lines:
+                self.more_lines.append(state.line)
+            else:  # a buffer that was reset after a replacement field starts over on this line
+                self.contline = state.line
+            self.last_lnum = state.lnum
 
     def has_text(self) -> bool:
         return bool(self.text) or any(self.more_text)
@@ -477,6 +488,7 @@ class EndProg:
         self.contline = ""
         self.more_text.clear()
         self.more_lines.clear()
+        self.last_lnum = 0
 
 
 def next_statement(
